@@ -3,6 +3,7 @@ package c02
 import (
 	"testing"
 
+	"github.com/elnosh/gonuts/cashu"
 	"github.com/elnosh/gonuts/cashu/nuts/nut05"
 
 	"verif/harness/lnmodel"
@@ -74,4 +75,48 @@ func TestRegressMsatFloor(t *testing.T) {
 	rec.NonTrivial("regress_msat_floor")
 	w.CheckLedger("regress")
 	failOnFlags(t, w, "C02")
+}
+
+// F24: a melt of somebody else's invoice that merely shares the payment hash with one of the mint's own invoices was
+// settled "internally" - nothing is paid to anybody, yet the mint quote (of any amount) is marked paid.
+func TestRegressForeignInvoiceWithOwnPaymentHash(t *testing.T) {
+	w := world.New(t, world.Config{CaseSeed: 77, FeeMode: lnmodel.FeeZero})
+	defer w.Close()
+	fq, err := w.RequestMintQuote(8, nil)
+	if err != nil {
+		t.Fatal(err)
+	}
+	w.PayInvoice(fq)
+	if _, err := w.MintTokens(fq, w.MakeOutputs([]uint64{1, 1, 2, 4}, w.ActiveID), ""); err != nil {
+		t.Fatal(err)
+	}
+	big, err := w.RequestMintQuote(1024, nil)
+	if err != nil {
+		t.Fatal(err)
+	}
+	rec.Eval()
+	rec.NonTrivial("regress_foreign_invoice_same_hash")
+	inv := w.Net.ForgedInvoice(big.Hash, 1000)
+	mq, err := w.RequestMeltQuote(inv.Request, 0)
+	if err != nil {
+		return // refusing the quote is fine
+	}
+	mq.ForeignSameHash = true
+	var one cashu.Proofs
+	for _, p := range w.M.ProofsIn(world.Unspent) {
+		if p.P.Amount >= mq.Amount+mq.FeeReserve {
+			one = cashu.Proofs{p.P}
+			break
+		}
+	}
+	w.LN.PayScript = []lnmodel.PayAnswer{lnmodel.PaySuccess}
+	r, merr := w.MeltTokens(mq, one)
+	w.LN.PayScript = nil
+	_, err = w.MintTokens(big, w.MakeOutputs(world.Split(1024), w.ActiveID), "")
+	w.CheckLedger("after minting the big quote")
+	for _, f := range w.TakeFlags() {
+		if f.Prop == "C02" && !rec.IsKnown(f.Signature) {
+			t.Errorf("VIOLATION %s: %s (melt state %v err %v, mint err %v)", f.Signature, f.Detail, r.State, merr, err)
+		}
+	}
 }
